@@ -454,7 +454,7 @@ theorem diffNamed_mem {β : Type} [DecidableEq β] (a b : List (Nat × β)) (n :
 
 /-- **`refs_from_changer`**: a bookmark whose value differs between the base and the other side
     becomes `merge_ref_targets(own value, base value, other value)` (absent = not in the map). -/
-theorem mergeBookmarks_changed' (r : Repo) (base other : View) (b : Nat)
+theorem mergeBookmarks_changed_any (r : Repo) (base other : View) (b : Nat)
     (h : base.bookmarks.lookup b ≠ other.bookmarks.lookup b) :
     (r.mergeBookmarks base other).view.getBookmark b =
       mergeRefTargets r.store (r.view.getBookmark b) (optTarget (base.bookmarks.lookup b))
